@@ -40,10 +40,17 @@ def _key(case):
 
 def _evaluate(prop, pid, cases, workdir, tag, timeout_s):
     """Run implementation and Coq comparator on cases. Returns (obs list, {idx: codes})."""
-    obs = pool.run(prop.__name__, 'run_case', cases, timeout_s=timeout_s)
+    obs = list(pool.run(prop.__name__, 'run_case', cases, timeout_s=timeout_s))
     encoded = []
     for i, (c, o) in enumerate(zip(cases, obs)):
-        cin, cobs = prop.encode(c, o)
+        try:
+            cin, cobs = prop.encode(c, o)
+        except Exception as e:  # noqa
+            # an observation of a shape the encoder does not know (only a changed implementation produces one):
+            # judged as what it is, an outcome that is not the model's, instead of stopping the whole check
+            o = ('crash', 'UnencodableObservation', '%s: %s | %s' % (type(e).__name__, str(e)[:80], repr(o)[:200]))
+            obs[i] = o
+            cin, cobs = prop.encode(c, o)
         encoded.append((i, cin, cobs))
     fails, nsh = coqrun.evaluate(pid, getattr(prop, 'COQ_HEADER', ''), encoded, workdir, tag=tag)
     return obs, fails, nsh
